@@ -1,6 +1,6 @@
 (* C19 — insertion refines sadd and keeps the AVL invariant. *)
 From Coq Require Import ZArith List Bool Lia Sorted.
-From ADV Require Import C19.Model C19.Spec C19.Proofs C19.ProofsList C19.ProofsLookup.
+From ADV Require Import C19.Model C19.Spec C19.ProofsRot C19.ProofsList C19.ProofsLookup.
 Import ListNotations.
 Open Scope Z_scope.
 
@@ -32,6 +32,41 @@ Lemma ins_N i nx id l v b r :
             true, true, nx')
     else (N id l v b r, false, true, nx).
 Proof. reflexivity. Qed.
+
+(* ---- balance ------------------------------------------------------------- *)
+Lemma ins_fix_left id l' v b r :
+  avl l' -> avl r -> height l' = height r + 2 -> bal_of l' <> 0 ->
+  let t' := if bal_of l' =? -1 then rotLL (N id l' v b r) else rotLR (N id l' v b r) in
+  avl t' /\ height t' = height r + 2 /\ bal_of t' = 0.
+Proof.
+  intros Hl Hr Hh Hb.
+  destruct l' as [|i1 a1l v1 b1 a1r]; [simpl in Hb; lia|].
+  simpl in Hl, Hh, Hb. destruct Hl as (Ha1l & Ha1r & Hb1 & Hr1).
+  pose proof (height_nonneg a1l). pose proof (height_nonneg a1r). pose proof (height_nonneg r).
+  simpl bal_of. destruct (Z.eqb_spec b1 (-1)) as [Hm|Hm].
+  - simpl. repeat split; auto; lia.
+  - destruct a1r as [|i2 a2l v2 b2 a2r]; [simpl in *; lia|].
+    simpl in Ha1r, Hb1, Hh. destruct Ha1r as (Ha2l & Ha2r & Hb2 & Hr2).
+    pose proof (height_nonneg a2l). pose proof (height_nonneg a2r).
+    simpl. destruct (Z.eqb_spec b2 1), (Z.eqb_spec b2 (-1)); repeat split; auto; lia.
+Qed.
+
+Lemma ins_fix_right id l v b r' :
+  avl l -> avl r' -> height r' = height l + 2 -> bal_of r' <> 0 ->
+  let t' := if bal_of r' =? 1 then rotRR (N id l v b r') else rotRL (N id l v b r') in
+  avl t' /\ height t' = height l + 2 /\ bal_of t' = 0.
+Proof.
+  intros Hl Hr Hh Hb.
+  destruct r' as [|i1 a1l v1 b1 a1r]; [simpl in Hb; lia|].
+  simpl in Hr, Hh, Hb. destruct Hr as (Ha1l & Ha1r & Hb1 & Hr1).
+  pose proof (height_nonneg a1l). pose proof (height_nonneg a1r). pose proof (height_nonneg l).
+  simpl bal_of. destruct (Z.eqb_spec b1 1) as [Hm|Hm].
+  - simpl. repeat split; auto; lia.
+  - destruct a1l as [|i2 a2l v2 b2 a2r]; [simpl in *; lia|].
+    simpl in Ha1l, Hb1, Hh. destruct Ha1l as (Ha2l & Ha2r & Hb2 & Hr2).
+    pose proof (height_nonneg a2l). pose proof (height_nonneg a2r).
+    simpl. destruct (Z.eqb_spec b2 1), (Z.eqb_spec b2 (-1)); repeat split; auto; lia.
+Qed.
 
 (* ---- elements ------------------------------------------------------------ *)
 Opaque rotLL rotLR rotRR rotRL.
@@ -79,43 +114,6 @@ Proof.
         -- intro H. injection H as ? ? ? ?; subst. auto.
       * assert (v = i) by lia. subst v. rewrite Z.eqb_refl.
         intro H. injection H as ? ? ? ?; subst. rewrite orb_true_r. auto.
-Qed.
-
-Transparent rotLL rotLR rotRR rotRL.
-
-(* ---- balance ------------------------------------------------------------- *)
-Lemma ins_fix_left id l' v b r :
-  avl l' -> avl r -> height l' = height r + 2 -> bal_of l' <> 0 ->
-  let t' := if bal_of l' =? -1 then rotLL (N id l' v b r) else rotLR (N id l' v b r) in
-  avl t' /\ height t' = height r + 2 /\ bal_of t' = 0.
-Proof.
-  intros Hl Hr Hh Hb.
-  destruct l' as [|i1 a1l v1 b1 a1r]; [simpl in Hb; lia|].
-  simpl in Hl, Hh, Hb. destruct Hl as (Ha1l & Ha1r & Hb1 & Hr1).
-  pose proof (height_nonneg a1l). pose proof (height_nonneg a1r). pose proof (height_nonneg r).
-  simpl bal_of. destruct (Z.eqb_spec b1 (-1)) as [Hm|Hm].
-  - simpl. repeat split; auto; lia.
-  - destruct a1r as [|i2 a2l v2 b2 a2r]; [simpl in *; lia|].
-    simpl in Ha1r, Hb1, Hh. destruct Ha1r as (Ha2l & Ha2r & Hb2 & Hr2).
-    pose proof (height_nonneg a2l). pose proof (height_nonneg a2r).
-    simpl. destruct (Z.eqb_spec b2 1), (Z.eqb_spec b2 (-1)); repeat split; auto; lia.
-Qed.
-
-Lemma ins_fix_right id l v b r' :
-  avl l -> avl r' -> height r' = height l + 2 -> bal_of r' <> 0 ->
-  let t' := if bal_of r' =? 1 then rotRR (N id l v b r') else rotRL (N id l v b r') in
-  avl t' /\ height t' = height l + 2 /\ bal_of t' = 0.
-Proof.
-  intros Hl Hr Hh Hb.
-  destruct r' as [|i1 a1l v1 b1 a1r]; [simpl in Hb; lia|].
-  simpl in Hr, Hh, Hb. destruct Hr as (Ha1l & Ha1r & Hb1 & Hr1).
-  pose proof (height_nonneg a1l). pose proof (height_nonneg a1r). pose proof (height_nonneg l).
-  simpl bal_of. destruct (Z.eqb_spec b1 1) as [Hm|Hm].
-  - simpl. repeat split; auto; lia.
-  - destruct a1l as [|i2 a2l v2 b2 a2r]; [simpl in *; lia|].
-    simpl in Ha1l, Hb1, Hh. destruct Ha1l as (Ha2l & Ha2r & Hb2 & Hr2).
-    pose proof (height_nonneg a2l). pose proof (height_nonneg a2r).
-    simpl. destruct (Z.eqb_spec b2 1), (Z.eqb_spec b2 (-1)); repeat split; auto; lia.
 Qed.
 
 Lemma ins_avl i : forall t nx t' ok bd nx',
@@ -190,3 +188,5 @@ Proof.
   repeat split; auto.
   unfold bst. rewrite B2. destruct ok; [apply sadd_sset|]; exact Hb.
 Qed.
+
+Transparent rotLL rotLR rotRR rotRL.
